@@ -307,10 +307,10 @@ impl Topology<(), ()> {
     #[must_use]
     #[allow(clippy::missing_panics_doc)]
     pub fn spanned(root: ModuleRef) -> Self {
-        let mut modules = vec![root];
+        let mut modules = VecDeque::from([root]);
         let mut this = Self::default();
 
-        while let Some(module) = modules.pop() {
+        while let Some(module) = modules.pop_front() {
             let gates = module.gates();
 
             this.nodes.push(Node { data: (), module });
@@ -342,7 +342,7 @@ impl Topology<(), ()> {
                             {
                                 src_idx + 1 + offset
                             } else {
-                                modules.push(end.owner());
+                                modules.push_back(end.owner());
                                 src_idx + modules.len()
                             }
                         });
